@@ -173,7 +173,7 @@ func RunTLC(r TLCRun) (*TLCResult, error) {
 		if m := reInvViol.FindStringSubmatch(line); m != nil && res.Violated == "" {
 			res.Violated = m[1]
 		}
-		if strings.Contains(line, "Postcondition") && strings.Contains(line, "violated") || strings.Contains(line, "POSTCONDITION") && strings.Contains(line, "violated") {
+		if strings.Contains(line, "Postcondition") && (strings.Contains(line, "is false") || strings.Contains(line, "violated")) {
 			res.Postcond = true
 		}
 		if strings.HasPrefix(line, "Error:") {
